@@ -195,9 +195,9 @@ static void enumerate(report& r)
     auto const ex = extremes<T>();
     std::vector<cfg> cfgs = {{0, 0}, {1, 0}, {1, 1}, {2, 0}, {2, 1}, {2, 2}, {2, 3}, {2, 4}, {3, 0}, {3, 1}, {3, 4}};   // kind 3: multi-channel with a distribution
     std::vector<std::vector<T>> const wv = {{T(1), T(1), T(1)}, {T(0), T(1), T(1)}, {T(1), T(0), T(1)}, {T(1), T(1), T(0)}, {T(0), T(0), T(1)}};
-    sz const n = 3;
     for (auto const& c : cfgs)
     {
+        sz const n = (r.a().thorough() && c.kind <= 1) ? 4 : 3;
         std::string const base = tn + " kind=" + std::to_string(c.kind) + " variant=" + std::to_string(c.variant);
         if (!r.want_prefix(base.substr(0, std::min(base.size(), r.a().replay_case.size())))) continue;
         sz const dims = 1;
